@@ -126,13 +126,19 @@ def _build_corpus() -> Dict[str, tuple]:
     raw = h2_preamble() + f_headers(1, _req(b"POST", b"/one") + [(b"content-length", b"5")], False)
     raw += f_data(1, b"hello", True) + f_headers(3, _req(b"GET", b"/two?q=1") + [(b"accept", b"*/*")], True)
     corpus["h2lit"] = ({"carrier": "h2", "tls": True, "alpn": "h2"}, _h2_frames(raw), 2)
+    # 10. an HTTP/1.1 request that offers a LIST of protocols in Upgrade (websocket among them) with the rest of a
+    #     WebSocket handshake: every byte of the list is mutated (also into obs-text bytes), which no session above does
+    #     to a token that stands next to "websocket"
+    lst = h1_request(b"GET", b"/w", [(b"Upgrade", b"websocket, x/1"), (b"Connection", b"Upgrade"),
+                                     (b"Sec-WebSocket-Key", b"dGhlIHNhbXBsZSBub25jZQ=="), (b"Sec-WebSocket-Version", b"13")])
+    corpus["h1uplist"] = ({"carrier": "h1"}, _lines(lst), 1)
     return corpus
 
 
 CORPUS = _build_corpus()
 SESSIONS = list(CORPUS)
 # the sessions that differ from wsh1 / wsh2 / h2two in header lines / header coding only are mutated but not spliced
-SPLICE_SESSIONS = [s for s in SESSIONS if not s.endswith("ext") and s != "h2lit"]
+SPLICE_SESSIONS = [s for s in SESSIONS if not s.endswith("ext") and s not in ("h2lit", "h1uplist")]
 
 
 def session_bytes(name: str) -> bytes:
